@@ -18,7 +18,7 @@ RULE = ("Cases: one three-component recording (60-1200 samples, drawn recipes, d
         "the recording and of single components); after every copy one side is edited in place. Non-trivial = >= 2 modifying "
         "operations precede a save or copy; distinct by SHA-1 of the case.")
 ASSUMPTIONS = [
-    "trim times are at least 0.05 of a sample interval away from the midpoint between two samples (nearest-sample knife edge)",
+    "trim times may lie (to within an ulp) half-way between two samples: the nearest sample is then decided in exact rational arithmetic on the float values and exact ties are skipped",
     "the model applies the same scipy/numpy primitives (butter/sosfiltfilt, detrend, tukey) to plain arrays; only bookkeeping (which samples, which components, copies, persistence) is under test",
 ]
 BUDGET = {"quick": 1600, "thorough": 40000}
@@ -38,7 +38,7 @@ def strategy(draw):
         o = draw(gen.choice(["trim", "trim", "filter", "detrend", "taper", "orient", "saveload", "copy", "split", "tsplit", "badtrim"]))
         if o == "trim":
             ops.append(dict(op="trim", a=draw(gen.floats(0, 0.6)), b=draw(gen.floats(0.05, 1.0)),
-                            pa=draw(st.sampled_from([0.0, 0.0, 0.3, -0.3, 0.45, -0.45, 0.1])), pb=draw(st.sampled_from([0.0, 0.0, 0.3, -0.3, 0.45, -0.45, -0.2]))))
+                            pa=draw(st.sampled_from([0.0, 0.0, 0.3, -0.3, 0.45, -0.45, 0.1, 0.5, 0.5])), pb=draw(st.sampled_from([0.0, 0.0, 0.3, -0.3, 0.45, -0.45, -0.2, 0.5, -0.5]))))
         elif o == "badtrim":
             ops.append(dict(op="badtrim", kind=draw(st.sampled_from(["negative-start", "start-after-end", "end-beyond", "equal"]))))
         elif o == "filter":
@@ -117,13 +117,27 @@ def check_case(case):
                 tb = min((n - 1) * dt, (i1 + op["pb"]) * dt)
                 # expected nearest samples, computed on the time vector the recording itself exposes
                 tvec = np.arange(n) * dt
-                e0, e1 = int(np.argmin(np.abs(tvec - ta))), int(np.argmin(np.abs(tvec - tb)))
+
+                def nearest_exact(t):
+                    """nearest sample time to t, decided in exact rational arithmetic on the float values; None on an exact tie"""
+                    from fractions import Fraction
+                    k = int(np.argmin(np.abs(tvec - t)))
+                    best = None
+                    for j in range(max(0, k - 1), min(n, k + 2)):
+                        dj = abs(Fraction(float(tvec[j])) - Fraction(float(t)))
+                        if best is None or dj < best[0]:
+                            best = (dj, j, False)
+                        elif dj == best[0]:
+                            best = (dj, best[1], True)
+                    return None if best[2] else best[1]
+                e0, e1 = nearest_exact(ta), nearest_exact(tb)
+                if e0 is None or e1 is None:
+                    labels.append("exact-tie-skipped")
+                    continue
                 if not ta < tb or e1 <= e0:
                     continue
-                d0 = np.sort(np.abs(tvec - ta))[:2]
-                d1 = np.sort(np.abs(tvec - tb))[:2]
-                if (d0[1] - d0[0]) < 0.05 * dt or (d1[1] - d1[0]) < 0.05 * dt:
-                    continue
+                if abs(op["pa"]) == 0.5 or abs(op["pb"]) == 0.5:
+                    labels.append("trim-near-midpoint")
                 prev = {c: getattr(rec, c).amplitude.copy() for c in COMPS}
                 try:
                     sut(rec.trim, ta, tb, allow=(IndexError,), what="trim")
